@@ -59,7 +59,7 @@ def make_skeleton(spec):
         expected = None
     else:
         name, before, texpr, after = [e for e in encodings(ev) if e[0] == spec['enc']][0]
-        ann = 'ctx: SetupContext<%s>' % texpr
+        ann = 'ctx: SetupContext<%s>' % texpr if not spec.get('targ2') else 'ctx: SetupContext<%s, %s>' % (texpr, {'slots': 'SlotsType<{{ default: () => any }}>', 'empty': '{{}}', 'any': 'any'}[spec['targ2']])
         expected = ev
     ptype = '{{ a: string }}'
     if spec.get('ctx') == 'pick-props':
@@ -74,8 +74,8 @@ def make_skeleton(spec):
         call = ('const First = defineComponent((p: {{ b: number }}, %s) => () => null);\n' % ann) * 2 + call
     shadow = 'interface Em {{ (e: "shadowed"): void }}\ntype Ev = "shadowed2";\n' if spec.get('scope') == 'local' else ''
     src = rt.module_src('EXPECT-EMITS', expected, before, call, after, spec.get('scope', 'top'), shadow).replace("from 'vue'", "from 'vue'") \
-        .replace("import {{ defineComponent }} from 'vue';", "import {{ defineComponent, type SetupContext }} from 'vue';")
-    return Skeleton('c19#%s|%s|%s|%s%s' % (','.join(ev), spec['enc'], spec.get('scope', 'top'), spec.get('setup', 'arrow'), '|' + spec['ctx'] if spec.get('ctx') else ''), src, [], {'resolve_type': True}, tsx=True,
+        .replace("import {{ defineComponent }} from 'vue';", "import {{ defineComponent, type SetupContext, type SlotsType }} from 'vue';")
+    return Skeleton('c19#%s|%s|%s|%s%s' % (','.join(ev), spec['enc'], spec.get('scope', 'top'), spec.get('setup', 'arrow'), ('|' + spec['ctx'] if spec.get('ctx') else '') + ('|targ2:' + spec['targ2'] if spec.get('targ2') else '')), src, [], {'resolve_type': True}, tsx=True,
                     meta={'family': 'c19/' + spec['enc']})
 
 
@@ -127,6 +127,13 @@ def jobs(tier):
             if e[0] in ('literal-union-alias', 'literal-union-alias-chain'):
                 out.append({'events': ev, 'enc': e[0], 'ctx': 'pick-props'})
                 out.append({'events': ev, 'enc': e[0], 'ctx': 'third-call'})
+    # Vue's SetupContext takes a second type argument (the slots type)
+    for ev in sets[1:2] if tier == 'quick' else sets:
+        for e in encodings(ev):
+            if e[0].startswith('after-'):
+                continue
+            for t2 in (('slots',) if tier == 'quick' and e[0] not in ('interface', 'fn-union-param', 'property') else ('slots', 'empty', 'any')):
+                out.append({'events': ev, 'enc': e[0], 'targ2': t2})
     for k in ('none', 'any', 'bare', 'other-name'):
         out.append({'events': [], 'enc': k})
         out.append({'events': [], 'enc': k, 'setup': 'fn'})
